@@ -47,13 +47,13 @@ PROPS = {
     "C10": dict(
         title="Rounding a datetime yields the correct multiple of the increment for every mode",
         verus=["round", "rounders"],
-        kani_quick=[], kani_thorough=[],
+        kani_quick=[], kani_thorough=["c10_model"],
         design_ref="DESIGN.md section 4, C10",
     ),
     "C12": dict(
         title="Span and SignedDuration are faithful value types with enforced limits",
         verus=["sdur", "span"],
-        kani_quick=[], kani_thorough=[],
+        kani_quick=[], kani_thorough=["c10_model"],
         design_ref="DESIGN.md section 4, C12",
     ),
     "C06": dict(
@@ -81,7 +81,7 @@ PROPS = {
         verus=["posix", "tzif", "rounders", "sdur", "zoned", "span", "civiladd", "civildiff"],
         all_fns=True,
         kani_quick=["c01_civil", "c02_wrappers"],
-        kani_thorough=[],
+        kani_thorough=["c10_model"],
         design_ref="DESIGN.md section 4, C05",
         level_text="Per-function claim over an explicit list (evidence.coverage.functions_under_contract): every extracted function is verified by Verus to be free of panics (assert!/unreachable!/unwrap/expect/indexing), arithmetic overflow and failed debug assertions for ALL inputs satisfying its stated type invariants, and its Ok results satisfy the range stated in its postcondition; the ranged-integer wrappers in the Kani groups are checked bit-precisely for panics and for Ok values inside the type's range. Entry points not on the list are not covered.",
     ),
@@ -96,13 +96,13 @@ PROPS = {
     "C08": dict(
         title="Civil date/time arithmetic follows the documented calendar rules",
         verus=["civiladd"],
-        kani_quick=[], kani_thorough=[],
+        kani_quick=[], kani_thorough=["c10_model"],
         design_ref="DESIGN.md section 4, C08",
     ),
     "C07": dict(
         title="Differences are reversible, balanced and sign-consistent for every largest unit",
         verus=["civildiff"],
-        kani_quick=[], kani_thorough=[],
+        kani_quick=[], kani_thorough=["c10_model"],
         design_ref="DESIGN.md section 4, C07",
         level_text="Date differences (Date::until/since, DateDifference::since_with_largest_unit) for every pair of dates and every largest unit: the result equals an explicit specification diff_spec, is reversible w.r.t. the C08 addition semantics, sign-consistent, has no unit above the largest and is balanced; panic-free. DateTime/Time/Timestamp/Zoned differences are NOT decided by this check yet (Zoned::until has the open finding F7).",
     ),
